@@ -366,7 +366,7 @@ def r5(ctx):
 
     # (f) objects made transient by the expunge step stay transient: any later re-keying `X.key = <key>` is
     #     restricted to states that were not expunged
-    exp_calls = [c for c in calls_named(body, "_expunge_states") if c.args and mentions(c.args[0], "_new") and const_is(kw(c, "to_transient"), True)]
+    exp_calls = [c for c in calls_named(body, "_expunge_states") if c.args and mentions(c.args[0], "_new")]
     if exp_calls and isinstance(exp_calls[0].args[0], ast.Name):
         E = exp_calls[0].args[0].id
         g = ctx.cfg(f)
@@ -407,6 +407,12 @@ def _atom_nodes(test, pol=True):
         for v in test.values:
             out.extend(_atom_nodes(v, pol))
         return out
+    if isinstance(test, ast.Compare) and len(test.ops) == 1 and isinstance(test.comparators[0], ast.Constant) and test.comparators[0].value is None:
+        # `x is not None` ~ x (existence), `x is None` ~ not x
+        if isinstance(test.ops[0], ast.IsNot):
+            return [(test.left, pol)]
+        if isinstance(test.ops[0], ast.Is):
+            return [(test.left, not pol)]
     return [(test, pol)]
 
 
@@ -418,15 +424,29 @@ def _is_state_dict(e, subject, aliases):
     return dotted(e) == f"{subject}.__dict__" or (isinstance(e, ast.Name) and e.id in aliases)
 
 
-def buffer_effects(fn_node, subject):
+def buffer_effects(fn_node, subject, helpers=None, _depth=0):
     """{attr: [(kind, stmt)]} for whole-buffer effects on `<subject>`: kind 'empty' (`.clear()`, `del`, `__dict__.pop`)
-    or 'flag' (assignment of a constant)."""
+    or 'flag' (assignment of a constant).  `helpers` ({method name: FunctionDef}) lets `<subject>.<helper>()` statements
+    contribute the effects of the helper's body (one level; attributed to the calling statement)."""
     al = _state_dict_names(fn_node, subject)
     out = {}
     for st in walk_stmts(fn_node.body):
         if isinstance(st, ast.Expr) and isinstance(st.value, ast.Call) and isinstance(st.value.func, ast.Attribute):
             c = st.value
             recv = c.func.value
+            if helpers and _depth == 0 and dotted(recv) == subject and c.func.attr in helpers and not c.args and not c.keywords:
+                h = helpers[c.func.attr]
+                hself = h.args.args[0].arg if h.args.args else "self"
+                hpm = {ch: par for par in ast.walk(h) for ch in ast.iter_child_nodes(par)}
+                hal = _state_dict_names(h, hself)
+                for a, effs in buffer_effects(h, hself, None, 1).items():
+                    for k, hst in effs:
+                        # only effects the helper performs on every call (own-existence guards aside) are credited
+                        cond = [(at, ap) for t, pol in lexical_guards(hpm, hst, stop=h) for at, ap in _atom_nodes(t, pol)]
+                        if all(ap and isinstance(at, ast.Compare) and len(at.ops) == 1 and isinstance(at.ops[0], ast.In) and isinstance(at.left, ast.Constant)
+                               and at.left.value == a and _is_state_dict(at.comparators[0], hself, hal) for at, ap in cond):
+                            out.setdefault(a, []).append((k, st))
+                continue
             if c.func.attr == "clear" and not c.args and isinstance(recv, ast.Attribute) and dotted(recv.value) == subject:
                 out.setdefault(recv.attr, []).append(("empty", st))
             elif c.func.attr == "pop" and c.args and isinstance(c.args[0], ast.Constant) and isinstance(c.args[0].value, str) and _is_state_dict(recv, subject, al):
@@ -461,7 +481,8 @@ def r6(ctx):
     ctx.require(len(containers) >= 2 and len(flags) >= 2, f"_commit_all_states empties {containers} and resets {flags}: fewer buffers than understood")
     exp = ctx.func(f"{IS}._expire")
     pm = exp.module.parents()
-    mine = buffer_effects(exp.node, "self")
+    helpers = {n: f_.node for n, f_ in ctx.index.cls(IS).methods.items() if n not in ("_expire", "_commit_all_states", "_commit_all", "_commit")}
+    mine = buffer_effects(exp.node, "self", helpers)
     al = _state_dict_names(exp.node, "self")
     for a in containers + flags:
         key = f"{exp.key}:discards:{a}"
@@ -682,6 +703,9 @@ R.mutant("newly-deleted-not-in-subtransaction", SESSION,
 R.mutant("benign-expire-pop-pending", STATE,
          sub("        if \"_pending_mutations\" in self.__dict__:\n            del self.__dict__[\"_pending_mutations\"]\n\n        if \"parents\" in self.__dict__:\n            del self.__dict__[\"parents\"]\n",
              "        if \"parents\" in self.__dict__:\n            del self.__dict__[\"parents\"]\n\n        self.__dict__.pop(\"_pending_mutations\", None)\n"), None)
+R.mutant("benign-expire-extracted-helper", STATE,
+         chain(sub("        if \"_pending_mutations\" in self.__dict__:\n            del self.__dict__[\"_pending_mutations\"]\n\n        if \"parents\"", "        self._drop_queued()\n\n        if \"parents\""),
+               sub("    def _expire(\n        self, dict_: _InstanceDict, modified_set", "    def _drop_queued(self) -> None:\n        if \"_pending_mutations\" in self.__dict__:\n            del self.__dict__[\"_pending_mutations\"]\n\n    def _expire(\n        self, dict_: _InstanceDict, modified_set")), None)
 R.mutant("benign-expire-attributes-rename-pending", STATE,
          chain(sub("        pending = self.__dict__.get(\"_pending_mutations\", None)\n", "        queued = self.__dict__.get(\"_pending_mutations\", None)\n"),
                              sub("            if pending:\n                pending.pop(key, None)\n", "            if queued is not None and key in queued:\n                del queued[key]\n")), None)
